@@ -69,6 +69,24 @@ AREAS = {   # rule id -> functions it covers
 }
 
 
+def _owners_or_self(F, fn):
+    """the known functions on whose behalf `fn` runs; a function the rules do not know that nobody in the crate calls
+    and that is not a trait method runs on nobody's behalf: dead code, or a new entry point no property speaks about"""
+    from .common import owners
+    from . import symex as S_
+    os_ = owners(F, fn)
+    if os_:
+        return os_
+    base = fn
+    if fn.kind == "Closure":
+        bn = re.sub(r"(::\{closure#\d+\})+$", "", fn.name)
+        cand = [f_ for f_ in F.fns.values() if f_.name == bn and f_.kind != "Closure"]
+        base = cand[0] if cand else fn
+    if S_.is_unknown_helper(base) and not base.name.startswith("<"):
+        return []       # (also a new *exported* function nobody in the crate calls: the properties speak about the API they name)
+    return [(fn, None)]
+
+
 def analyze(ctx, rules):
     """rules: iterable of rule ids from AREAS to emit."""
     from .common import owners, is_derived
@@ -88,7 +106,7 @@ def analyze(ctx, rules):
                     continue        # pairing with 0.. or with a repeated constant cannot drop an element of the other operand
             if kind == "take" and re.search(r"^std::iter::(RepeatWith|Repeat|Successors|FromFn)<", t.get("callee_self") or ""):
                 continue            # the first n elements of an endless generator: n elements, nothing is dropped
-            for o, _ in (owners(F, fn) or [(fn, None)]):
+            for o, _ in _owners_or_self(F, fn):
                 sites.setdefault((o.name, kind), []).append(fn.loc(bb))
     adv = {}
     for fn in F.fns.values():
@@ -174,7 +192,7 @@ def analyze(ctx, rules):
                     continue        # (the clone of an *iterator*, not a clone somewhere in the value's history)
             except Exception:
                 pass
-            for o, _ in (owners(F, fn) or [(fn, None)]):
+            for o, _ in _owners_or_self(F, fn):
                 adv.setdefault((o.name, kind), []).append(fn.loc(bb))
     for rule in rules:
         area = AREAS[rule]
@@ -237,7 +255,7 @@ def loop_exits(F):
             n += sum(len(set(v)) for u, v in exits.items() if not (test and u == test[0]))
         if not n:
             continue
-        for o, _ in (owners(F, fn) or [(fn, None)]):
+        for o, _ in _owners_or_self(F, fn):
             out[o.name] = out.get(o.name, 0) + n
     return out
 
@@ -325,7 +343,7 @@ def list_ops(F):
                     found[kind] = found.get(kind, 0) + 1
         if not found:
             continue
-        for o, _ in (owners(F, fn) or [(fn, None)]):
+        for o, _ in _owners_or_self(F, fn):
             d = out.setdefault(o.name, {})
             for k, n in found.items():
                 d[k] = d.get(k, 0) + n
@@ -357,6 +375,15 @@ def analyze_list_ops(ctx, rules):
                 # loop that was followed by a sort): more order operations are accepted where there was one
                 if not ok and kind == "order" and allowed > 0:
                     ok = True
+                # `v.retain(p)` on a copy is the in-place form of `iter().filter(p).collect()`: it may stand where a filter the
+                # inventory knows (BASELINE / UNDERSTOOD) stood and no longer stands
+                if not ok and kind == "shorten":
+                    rows_f = [1 for rx_, ad_, _ in BASELINE + UNDERSTOOD if ad_ in ("filter", "filter_map") and re.search(rx_.replace("<..>", "<'\\w+>"), oname)]
+                    ofn = [f_ for f_ in F.fns.values() if f_.name == oname]
+                    now_f = sum(1 for f_ in ofn + [c_ for f0 in ofn for c_ in F.closures_of(f0)] for _bb, t_ in f_.calls(r"iter::Iterator>::(filter|filter_map)(::<.*>)?$"))
+                    only_retain = all(re.search(r"::(retain|retain_mut)(::<.*>)?$", M.call_name(t_)) for f_ in ofn for _bb, t_ in f_.calls(LIST_OPS[2][1]))
+                    if rows_f and now_f == 0 and only_retain and k <= 1:
+                        ok = True
                 ctx.ob(rule, "list-ops:%s:%s" % (M.short_name(oname), kind), ok,
                        "%s: %d in-place operation(s) of kind '%s' (sort/dedup | reverse/swap/swap_remove | truncate/drain/retain), the reference tree has %d%s" % (
                            M.short_name(oname), k, kind, allowed, "" if ok else ": the order or the length of a list changes where the rules assume it does not"), "")
